@@ -10,6 +10,6 @@ def run(ctx):
                               "prefix/suffix tests; every non-empty string of length <= 5 over {0,1,2,.,e,+,-} for convert<double>; "
                               "non-trivial = non-empty subject string",
                          nontrivial=lambda c: len(c["s"]) > 0,
-                         sig=lambda b: ",".join(sorted(b["fails"])),
+                         sig=lambda f, b: f,
                          assumptions=["empty string delimiters and replace_all start positions > 0 are outside the statement and not generated",
                                       "convert<double> is judged on strings without whitespace, hexadecimal, inf or nan spellings"])
